@@ -166,16 +166,19 @@ def _verbatim(ctx, loader):
     loop = None
     for node, call in restores:
         loop = K.enclosing_for(graph, node)
-        names = set(['presence_time', 'placement_time'])
         mine = N.raw_only(facts[node])
         every = list(facts[node])
+        # the two time stamps compared, whatever the locals are called: both
+        # are read from a node's creation time (which node is judged below)
+        pname, tname = M.stamp_names(func, every)
+        names = set([pname, tname])
         le = [f for f in every if f.key[0] == 'cmp' and
               f.key[1] in ('<=', '<') and sorted(
                   t for t, _c in f.key[2]) == sorted(names) and
-              dict(f.key[2])['presence_time'] > 0]
+              dict(f.key[2])[pname] > 0]
         tr = [f for f in every if f.key[0] == 'truth' and f.key[2] and
-              f.key[1] == 'presence_time' or f.key[0] == 'is' and
-              not f.key[3] and f.key[1] == 'presence_time']
+              f.key[1] == pname or f.key[0] == 'is' and
+              not f.key[3] and f.key[1] == pname]
         def benign(f):
             return f in le or f in tr or \
                 (f.key[0] == 'in' and 'self.cell.apps' in f.key[2]) or \
@@ -194,8 +197,7 @@ def _verbatim(ctx, loader):
                'with the recorded expiry (%s)' % exp,
                construct='verbatim restore value')
     # presence_time / placement_time definitions
-    for name, want in (('presence_time', 'presence_node'),
-                       ('placement_time', 'appnode')):
+    for name, want in ((pname, 'presence_node'), (tname, 'appnode')):
         leaves = M.leaf_defs(defs, name)
         vals = [N.txt(v) for v in leaves]
         stamps = [K.exact_ms_to_s(v) for v in leaves
